@@ -30,8 +30,11 @@ def check(ctx, replay=None):
                 if "pair" in call["m"]:
                     by.setdefault((call["m"]["pair"], call["m"]["name"].split("_")[1]), []).append((call, res["records"].get(ci)))
             sample += [{"method": c["m"]["name"], "args": c["args"], "observed": r} for (c, r) in list(by.values())[0][:2]] if by and bi == 0 else []
+    import c10_extra
+    ncalls += c10_extra.run(ctx, ("c", "cpp"), ("c++17",) if ctx.quick() else ("c++17", "c++20"), goals=goals)
+    meta += [("unit-arms-layout", "record of a result whose arms carry no bytes (c10_extra)")] * (len(goals) - len(meta))
     fails = run_shards(PROP, c01.HEADER, goals) if goals else []
-    if fails and viol == 0:
+    if fails and not ctx.violations:
         for f in fails[:3]:
             ctx.violation(f"corr:{meta[f][0]}", {"item": meta[f][1], "broken": "correspondence goal " + goals[f][:500]}, False)
     return batch_evidence(
@@ -39,7 +42,8 @@ def check(ctx, replay=None):
         "%d generated bridge(s); besides random methods, for every payload kind (9 primitives, every enum, every struct) a pair of methods that "
         "differ only in the spelling std Option / DiplomatOption, in parameter and return position; every Option/Result return with both arms, unit "
         "arms, stale payload bytes in None arguments; observed through the compiled C driver: {payload, is_ok} of every result, NULL-ness of pointer "
-        "options, identical declarations for the two spellings, identical behaviour. Coq goals: prototypes, result typedefs (union members present / "
+        "options, identical declarations for the two spellings, identical behaviour; plus a fixed bridge whose Option / Result arms carry no bytes (unit, "
+        "field-less structs) observed through C and C++ drivers (record size 1, is_ok at offset 0, both outcomes). Coq goals: prototypes, result typedefs (union members present / "
         "absent), struct layouts. non-trivial = call involving an optional or fallible type" % nb,
         "Modelled, not verified: see C01 (Abi/Model.v); DiplomatResult/DiplomatOption runtime conversions are covered by C03's model; the C compiler's "
         "union layout is trusted (SysV ABI)",
